@@ -87,6 +87,25 @@ def run(ctx):
                                   {'variant': variant, 'enforce_new_defaults': en, 'check_string_style': lc.STYLES[styles_used[idx]], 'why': why, 'trace': tr})
                 if len(ctx.samples) < 5:
                     ctx.sample({'variant': variant, 'enforce_new_defaults': en, 'style': lc.STYLES[styles_used[-1]], 'trace': traces[-1]})
+    # the same table when the configuration reaches the enforcer another way: ONE opts.set_defaults call that
+    # names the policy file and the options, or nothing configured at all (the main file is a policy.json in
+    # the configuration directory, found by the documented fallback)
+    n_routes = 0
+    for route in ('set_defaults', 'discover'):
+        for variant in ('renamed', 'same', 'split', 'plain'):
+            for en in (False, True):
+                plans = [([('write', 'main', 'old')], [('load', False)]), ([('write', 'main', 'new')], [('write', 'd1/b', 'old'), ('load', False)]),
+                         ([('write', 'main', 'alias')], [('load', False), ('load', True)]), ([('write', 'main', 'both')], [('load', False)])]
+                if route == 'set_defaults':
+                    plans.append(([], [('load', False)]))
+                    plans.append(([], [('write', 'd1/a', 'old'), ('load', False)]))
+                traces = [lc.run_history(rng, variant, en, h, route=route, pre=pre) for pre, h in plans]
+                n_routes += len(traces)
+                for idx, why, step in lc.judge_traces(ctx, variant, en, traces):
+                    ctx.violation('override-table:%s:enforce_new=%s:configured-by-%s' % (variant, en, route),
+                                  'decision for a policy with a deprecated predecessor differs from the override table: ' + why,
+                                  {'variant': variant, 'enforce_new_defaults': en, 'configuration_route': route, 'why': why, 'trace': traces[idx]})
+    ctx.cover['rows_by_other_configuration_routes'] = n_routes
     ctx.exhaustive = True
     ctx.cover.update({'table_rows': rows, 'rows_x_styles_run': n, 'variants': lc.VARIANTS})
     ctx.assumptions += ['an old-name override textually equal to the deprecated default is left unconstrained by the statement and is not generated',
